@@ -89,9 +89,10 @@ func TestC15(t *testing.T) {
 		for i := 0; i < r.N(100, 1500); i++ {
 			concCase(t, r, i)
 		}
+		lookupRace(t, r)
 	}
 	r.Require("gets_after_install", "gets_without_install", "gets_after_many_installs", "builder_failures", "closes_checked", "updater_created_during_install",
-		"installs_with_failing_cache", "concurrent_gets")
+		"installs_with_failing_cache", "concurrent_gets", "updaters_from_racing_lookups")
 	r.Rule("sequential seeded histories over 2 secrets and up to 5 updaters: installs (0..4 between Gets, sometimes with a failing cache write), updater creation (also while an install lands during its initial build), scripted builder failures, Gets; exact expectations per Get on (builder invoked?, with which bytes, value returned, Err, Close counts). Concurrent runs: 8 Get goroutines vs an installer, judged by call/return stamps. Distinct = (event, installs since last Get capped at 3, builder outcome)")
 }
 
@@ -429,3 +430,64 @@ func concCase(t *testing.T, r *evid.Run, idx int) {
 }
 
 var _ = rand.IntN
+
+// lookupRace: several goroutines create an updater on the same, not yet known, secret at the same
+// moment (so their lookups race); afterwards a new version is installed. Every one of those updaters,
+// and every handle, must deliver it.
+func lookupRace(t *testing.T, r *evid.Run) {
+	svc := fakesvc.New()
+	svc.Set("decl", 1, []byte("decl#1"))
+	st, err := setec.NewStore(context.Background(), setec.StoreConfig{Client: svc, Secrets: []string{"decl"}, AllowLookup: true, PollInterval: -1, Logf: func(string, ...any) {}})
+	if err != nil {
+		t.Fatal(err)
+	}
+	defer st.Close()
+	nNames := r.N(400, 4000)
+	for i := 0; i < nNames; i++ {
+		r.Eval(1)
+		name := fmt.Sprintf("fresh/%d", i)
+		svc.Set(name, 1, []byte(name+"#1"))
+		const G = 8
+		ups := make([]*setec.Updater[*val], G)
+		bs := make([]*builder, G)
+		handles := make([]setec.Secret, G)
+		var wg sync.WaitGroup
+		var gate atomic.Bool
+		for g := 0; g < G; g++ {
+			wg.Add(1)
+			go func(g int) {
+				defer wg.Done()
+				for !gate.Load() {
+				}
+				if g%2 == 0 {
+					bs[g] = &builder{}
+					ups[g], _ = setec.NewUpdater(context.Background(), st, name, bs[g].build)
+				} else {
+					handles[g], _ = st.LookupSecret(context.Background(), name)
+				}
+			}(g)
+		}
+		gate.Store(true)
+		wg.Wait()
+		svc.Set(name, 2, []byte(name+"#2"))
+		if err := st.Refresh(context.Background()); err != nil {
+			t.Fatal(err)
+		}
+		for g := 0; g < G; g++ {
+			if ups[g] != nil {
+				r.Count("updaters_from_racing_lookups", 1)
+				if v := ups[g].Get(); v.from != name+"#2" {
+					r.Violation("stale-after-install", -1, fmt.Sprintf("an updater created while several lookups of %q were racing returns a value built from %q after version 2 was installed", name, v.from), nil)
+					return
+				}
+			}
+			if handles[g] != nil {
+				if got := string(handles[g].Get()); got != name+"#2" {
+					r.Violation("stale-after-install", -1, fmt.Sprintf("a handle obtained while several lookups of %q were racing yields %q after version 2 was installed", name, got), nil)
+					return
+				}
+			}
+		}
+	}
+	r.Distinct("racing-lookups")
+}
